@@ -91,7 +91,17 @@ type feffect struct {
 	seen    bool
 }
 
+// fmop: a mantissa statement (matched by its source text) that is recorded in the output field
+// `mtrace : List (Nat × List Int)` as (code, values of the listed integer sub-expressions).
+type fmop struct {
+	src  string
+	code int
+	args []string // Go sub-expressions of the statement (types.ExprString form), integers
+	seen bool
+}
+
 type fact struct {
+	mops      []*fmop
 	lean      string
 	fn        string // key in pkgInfo.funcs
 	doc       string
@@ -499,6 +509,9 @@ func (t *ftr) ret(vals []string, outcome int, c fctx) string {
 		if t.captures() {
 			fs = append(fs, "arg := arg")
 		}
+		if len(t.f.mops) > 0 {
+			fs = append(fs, "mtrace := mtrace")
+		}
 		for _, p := range t.f.params {
 			if p.state {
 				fs = append(fs, fmt.Sprintf("%s := %s", p.name, p.name))
@@ -629,6 +642,31 @@ func (t *ftr) stmts(list []ast.Stmt, c fctx, k func(c fctx) string) string {
 	}
 	s, rest := list[0], list[1:]
 	next := func(c fctx) string { return t.stmts(rest, c, k) }
+	for _, mo := range t.f.mops {
+		if stmtString(t.p, s) == mo.src {
+			mo.seen = true
+			if c.sealed {
+				return c.indent + t.fail(s, "mantissa statement after an opaque call") + "\n"
+			}
+			var vals []string
+			for _, a := range mo.args {
+				node := findSubExpr(s, a)
+				if node == nil {
+					return c.indent + t.fail(s, "recorded sub-expression %s does not occur in %s", a, mo.src) + "\n"
+				}
+				ty, ok := t.typeOf(unparen(node))
+				if !ok || ty.k == kBool {
+					return c.indent + t.fail(node, "recorded sub-expression %s is not an integer", a) + "\n"
+				}
+				v := t.ex(node, c)
+				if ty.k == kNat {
+					v = "(Int.ofNat " + v + ")"
+				}
+				vals = append(vals, v)
+			}
+			return fmt.Sprintf("%s-- (mantissa) %s\n%slet mtrace : List (Nat × List Int) := mtrace ++ [(%d, [%s])]\n", c.indent, mo.src, c.indent, mo.code, strings.Join(vals, ", ")) + next(c)
+		}
+	}
 	for _, sk := range t.f.skip {
 		if stmtString(t.p, s) == sk {
 			t.f.skipSeen[sk] = true
@@ -842,6 +880,22 @@ func (t *ftr) stmts(list []ast.Stmt, c fctx, k func(c fctx) string) string {
 		return c.indent + t.fail(x, "statement %s", stmtString(t.p, x)) + "\n"
 	}
 	return c.indent + t.fail(s, "statement %T", s) + "\n"
+}
+
+// findSubExpr returns the first sub-expression of n whose source text is src.
+func findSubExpr(n ast.Node, src string) ast.Expr {
+	var found ast.Expr
+	ast.Inspect(n, func(m ast.Node) bool {
+		if found != nil {
+			return false
+		}
+		if e, ok := m.(ast.Expr); ok && types.ExprString(e) == src {
+			found = e
+			return false
+		}
+		return true
+	})
+	return found
 }
 
 func restrict(m, outer map[string]ftype) map[string]ftype {
@@ -1354,6 +1408,9 @@ func genFacts(p *pkgInfo) (string, []string) {
 				if t.captures() {
 					text += "  let arg : Int := 0\n"
 				}
+				if len(f.mops) > 0 {
+					text += "  let mtrace : List (Nat × List Int) := []\n"
+				}
 			}
 			text += t.stmts(body, c, end)
 			if !f.stateful {
@@ -1410,11 +1467,19 @@ func genFacts(p *pkgInfo) (string, []string) {
 				t.fail(fd, "statement %s does not occur", sk)
 			}
 		}
+		for _, mo := range f.mops {
+			if !mo.seen {
+				t.fail(fd, "mantissa statement %s does not occur", mo.src)
+			}
+		}
 		problems = append(problems, t.problems...)
 		if f.stateful {
 			fmt.Fprintf(&sb, "structure %sOut where\n  outcome : Nat\n  tail : Nat\n", f.lean)
 			if t.captures() {
 				sb.WriteString("  arg : Int\n")
+			}
+			if len(f.mops) > 0 {
+				sb.WriteString("  mtrace : List (Nat × List Int)\n")
 			}
 			for _, prm := range f.params {
 				if prm.state && prm.typed {
@@ -1439,6 +1504,13 @@ func genFacts(p *pkgInfo) (string, []string) {
 				es = append(es, s)
 			}
 			extra = "; " + strings.Join(es, ", ")
+		}
+		if len(f.mops) > 0 {
+			var ms []string
+			for _, mo := range f.mops {
+				ms = append(ms, fmt.Sprintf("%d = `%s`", mo.code, mo.src))
+			}
+			extra += "; mtrace codes: " + strings.Join(ms, ", ")
 		}
 		fmt.Fprintf(&sb, "/-- %s (%s)%s. Parameters: %s%s -/\ndef %s %s : %s :=\n%s\n", f.fn, filepath.Base(pos.Filename), doc,
 			strings.Join(docp, ", "), extra, f.lean, strings.Join(sig, " "), rtype, text)
